@@ -3683,8 +3683,12 @@ static int fold_constants_for_binop (
 					hawk_seterrnum (hawk, HAWK_NULL, HAWK_EDIVBY0);
 					fold = -2; /* error */
 				}
-				else if (INT_BINOP_INT(left,%,right))
+				else if ((((hawk_nde_int_t*)left)->val == HAWK_TYPE_MIN(hawk_int_t) &&
+				          ((hawk_nde_int_t*)right)->val == -1) ||
+				         INT_BINOP_INT(left,%,right))
 				{
+					/* the smallest integer divided by -1 is not representable
+					 * as an integer and the machine division traps */
 					folded->r = (hawk_flt_t)((hawk_nde_int_t*)left)->val /
 					            (hawk_flt_t)((hawk_nde_int_t*)right)->val;
 					fold = HAWK_NDE_FLT;
@@ -3701,6 +3705,11 @@ static int fold_constants_for_binop (
 					hawk_seterrnum (hawk, HAWK_NULL, HAWK_EDIVBY0);
 					fold = -2; /* error */
 				}
+				else if (((hawk_nde_int_t*)right)->val == -1)
+				{
+					/* same as eval_binop_idiv() in run.c */
+					folded->l = (hawk_int_t)((hawk_uint_t)0 - (hawk_uint_t)((hawk_nde_int_t*)left)->val);
+				}
 				else
 				{
 					folded->l = INT_BINOP_INT(left,/,right);
@@ -3708,7 +3717,20 @@ static int fold_constants_for_binop (
 				break;
 
 			case HAWK_BINOP_MOD:
-				folded->l = INT_BINOP_INT(left,%,right);
+				if (((hawk_nde_int_t*)right)->val == 0)
+				{
+					hawk_seterrnum (hawk, HAWK_NULL, HAWK_EDIVBY0);
+					fold = -2; /* error */
+				}
+				else if (((hawk_nde_int_t*)right)->val == -1)
+				{
+					/* same as eval_binop_mod() in run.c */
+					folded->l = 0;
+				}
+				else
+				{
+					folded->l = INT_BINOP_INT(left,%,right);
+				}
 				break;
 
 			default:
